@@ -441,6 +441,12 @@ func (e *sysEnv) runSystem(c *sysCase, res *behav.Result) (fails []sysFail, inco
 		{"Sum", "Sum(field=v)"}, {"Min", "Min(field=v)"}, {"Max", "Max(field=v)"}} {
 		if r, ok := run(q.kind, q.pql); ok {
 			vc, _ := r.(pilosa.ValCount)
+			if q.kind == "Max" && os.Getenv("VERIF_DUMP_MAX") != "" {
+				// diagnostic: what Max returned under which forced order (used to measure how faithfully
+				// the gates impose the order, see design/C17.md)
+				fmt.Fprintf(os.Stderr, "DUMPMAX %s\n", mustJSON(map[string]interface{}{"owner": owner, "coord": coord, "locals": locals,
+					"remote": remote, "val": vc.Val, "count": vc.Count, "data": data}))
+			}
 			if got := canonVC(vc); got != wantStr(q.kind) {
 				fail(q.kind, "wrong_result", "%s = %s, expected %s", q.pql, got, wantStr(q.kind))
 			}
